@@ -231,12 +231,12 @@ def query (w : World) (o : Obj) (args : List String) : String :=
   | "Z" =>
     let ks : Option (List Nat) := if args.length < 2 then some ((List.range (c.maxOrder + 1).toNat).drop 1) else parseList parseNat (a 1)
     (match ks with
-    | some ks => "ok " ++ pSet (ks.map (fun k => s!"{k}:{pList ((Zk c k).map pNames)}"))
+    | some ks => "ok " ++ pSet (ks.eraseDups.map (fun k => s!"{k}:{pList ((Zk c k).map pNames)}"))   -- a dict: one entry per order
     | none => "err ks")
   | "betti" =>
     let ks : Option (List Nat) := if args.length < 2 then some (List.range (c.maxOrder + 1).toNat) else parseList parseNat (a 1)
     (match ks with
-    | some ks => "ok " ++ pSet (ks.map (fun k => s!"{k}:{bettiK c k}"))
+    | some ks => "ok " ++ pSet (ks.eraseDups.map (fun k => s!"{k}:{bettiK c k}"))
     | none => "err ks")
   | "euler" => (match f with | none => s!"ok {euler c}" | some f => s!"ok {f.euler}")
   | "count" => (match f with | none => s!"ok {c.simps.length}" | some f => s!"ok {f.count}")
